@@ -883,6 +883,10 @@ impl Engine for C11 {
             "number literals at and around the ends of the integer types, in five places",
             p_numbers(),
         ));
+        v.push(Phase::new(
+            "ordered pairs of generated expressions of <= 2 constructors side by side, unparenthesised, in six list positions",
+            p_pairs(),
+        ));
         v.push(Phase::new("nesting families", p_nest(thorough)));
         v
     }
